@@ -1,4 +1,5 @@
 import ZmqVerif.Model.Sockets
+import ZmqVerif.Lemmas.WorldSendStart
 /-!
 # C07 — REQ/REP envelopes are added, preserved and stripped exactly
 
@@ -126,5 +127,30 @@ theorem C07_chain (ids : List Bytes) (p r : Msg) (hids : ∀ i ∈ ids, i ≠ []
 example : repSplit [[1], [2, 2], [], [], [7], []] = some ([[1], [2, 2], []], [[], [7], []]) := by decide
 /-- the degenerate requests are rejected -/
 example : repSplit [[1], []] = none ∧ repSplit [[]] = none ∧ repSplit [[1]] = none := by decide
+
+/-! ### socket level: the request on the wire -/
+
+open Zmq.W in
+/-- **`ReqSocket::send` against the wires** (first poll; `C10_world_to_poll` carries the invariant over the later ones):
+whatever the rotation looks like — stale entries of lost servers are skipped — a refused send hands the message back
+and touches no wire; otherwise EXACTLY ONE registered peer is chosen and the send is in progress to it with the
+encoding of `[delimiter] ++ message` (`reqWrap`), `base` being that connection's outgoing stream at the start: the
+request goes out behind exactly one empty delimiter frame, on exactly that connection, and if the send completes at
+once that wire is `base` followed by the complete encoding. -/
+theorem C07_world_req_send (fuel : Nat) (w : World) (sid : Nat) (m : Msg) (s : Socket) (hs : getSock w sid = some s)
+    (w' : World) (f' : FutSt) (o : POut) (h : reqSendStart fuel w sid m = (w', f', o)) :
+    match (generalizing := false) f', o with
+    | .sendTo _ k st _, .pending =>
+        ∃ wr, ilookup s.peers k = some wr ∧
+          SendInv w' sid k wr.pipe (outOf w.pipes wr) (encodeMsg (reqWrap m)) st ∧
+          ∀ j, j ≠ wr.pipe → wOf w'.pipes j = wOf w.pipes j
+    | _, .ready .okUnit =>
+        ∃ k wr, ilookup s.peers k = some wr ∧
+          (wOf w'.pipes wr.pipe).wire = outOf w.pipes wr ++ encodeMsg (reqWrap m) ∧
+          ∀ j, j ≠ wr.pipe → wOf w'.pipes j = wOf w.pipes j
+    | _, .ready (.errReturn m') => m' = m ∧ ∀ j, wOf w'.pipes j = wOf w.pipes j
+    | _, .ready (.err _) => True
+    | _, _ => False :=
+  reqSendStart_spec fuel w sid m s hs w' f' o h
 
 end Zmq.C07
